@@ -23,6 +23,7 @@ mod c13;
 mod c14;
 mod c15;
 mod c16;
+mod c17;
 mod cat;
 mod conv;
 mod dev;
